@@ -405,6 +405,15 @@ func c14LogShapes() []C14Shape {
 			}
 		}
 	}
+	// shapes that use the whole 1..50 bin range: max = b^(nbins/m)
+	for b := 2; b <= 10; b++ {
+		for m := 1; m <= 4; m++ {
+			for _, nb := range []int{20, 50} {
+				mx := math.Pow(float64(b), float64(nb)/float64(m))
+				ss = append(ss, C14Shape{Log: true, B: b, M: float64(m), Max: mx})
+			}
+		}
+	}
 	return ss
 }
 
